@@ -188,6 +188,8 @@ type rawRead struct {
 	data   []byte
 	src    net.Addr
 	err    error
+	// the link returned an injected error / reported "closed" to a read made during this call
+	linkErr, linkClosed bool
 }
 
 type rawWrite struct {
@@ -315,16 +317,19 @@ func (st *rawState) start() {
 					buf[k] = 0xcc
 				}
 				s.EnterSUT()
+				e0, c0 := st.link.ErrReads, st.link.ClosedReads
 				n, src, err := upc.ReadFrom(buf)
 				s.LeaveSUT()
-				r := rawRead{n: n, src: src, err: err, bufLen: size}
+				// what the link did during this call decides what an error means, not the error's
+				// identity: a connection may wrap what the link reports
+				r := rawRead{n: n, src: src, err: err, bufLen: size, linkErr: st.link.ErrReads > e0, linkClosed: st.link.ClosedReads > c0}
 				if err == nil && n >= 0 && n <= len(buf) {
 					r.data = append([]byte(nil), buf[:n]...)
 				}
 				r.seq = s.Ev("read", -1, int64(n), fmt.Sprintf("src=%v err=%v", src, err), nil)
 				st.reads = append(st.reads, r)
 				if err != nil {
-					if err == errInjectedRead {
+					if r.linkErr && !r.linkClosed {
 						// a failed link read is reported once; the connection must go on working
 						s.Probe("reader-continues-after-link-read-error")
 						continue
@@ -766,9 +771,9 @@ errors:
 		if r.err == nil {
 			continue
 		}
-		if r.err == errInjectedRead {
+		if r.linkErr && !r.linkClosed {
 			injected++
-		} else if !isClosedErr(r.err) {
+		} else if !r.linkClosed {
 			v.add("R-error", "ReadFrom failed with %v which is neither the link's read error nor its close error", r.err)
 		}
 	}
